@@ -55,12 +55,23 @@ def event_text(c, e):
 def explore(ctx, pid, cases, judges, nontrivial=None, known_key=None, max_failures=20, shards=16):
     """differential + judges.  Returns (coverage, failures)."""
     work, drv = ctx["work"], ctx["drv"]
-    impl_raw = lib.run_impl_sharded(drv, cases, work, shards=shards)
+    # the block counter wraps after NBLOCKS allocations: more cases than that are played in waves, so that two cases that
+    # were given the same block never run at the same time
+    impl_raw = {}
+    wave = pg.NBLOCKS - 500
+    for w0 in range(0, len(cases), wave):
+        if w0:
+            time.sleep(65)      # connections of the previous wave's scenarios may sit in TIME_WAIT for a minute
+        wd = work if len(cases) <= wave else os.path.join(work, "wave%d" % (w0 // wave))
+        os.makedirs(wd, exist_ok=True)
+        impl_raw.update(lib.run_impl_sharded(drv, cases[w0:w0 + wave], wd, shards=shards))
     # a scenario whose sockets could not be bound (its address block is still held by a process of another check running
-    # at the same time: the block counter wraps after 10^4 allocations) is played again in a fresh block, twice at most;
-    # a proxy that cannot start for another reason fails again and is reported
+    # at the same time, or a connection of an earlier scenario of the block is still in TIME_WAIT) is played again in a
+    # fresh block, twice at most; a proxy that cannot start for another reason fails again and is reported
+    def unbound(toks):
+        return toks[:1] in ([b"setup-fail"], [b"start-fail"]) or any(t.startswith(b"connect-fail:") and b"address already in use" in t for t in toks)
     for attempt in range(2):
-        bad = [i for i, c in enumerate(cases) if impl_raw.get(c.id, [b""])[:1] in ([b"setup-fail"], [b"start-fail"])]
+        bad = [i for i, c in enumerate(cases) if unbound(impl_raw.get(c.id, [b""]))]
         if not bad:
             break
         time.sleep(1 + 3 * attempt)      # a foreign process holding the wildcard address of a port goes away, too
